@@ -32,6 +32,17 @@ CHECKS["C04"] = dict(
     design="DESIGN.md §5 C04",
     technique="Coq proof (computation over regenerated finite tables + structural induction) + exhaustive differential correspondence")
 
+CHECKS["C12"] = dict(
+    text=("Loop-invariant proof for the model of DecayChain.flatten (Counter += / item assignment / membership as CPython "
+          "implements them): for every returning run, the branching fraction equals top.bf times the product over the tree "
+          "and every particle's multiplicity equals its number of leaves, for ANY solution of the one-step unfolding "
+          "equations (unique for acyclic chains), any stable set, any order of the sub-decay mapping; top-level model "
+          "information kept. Unbounded in chain size, multiplicities and depth. Partial correctness: termination of the loop "
+          "is exercised by the correspondence only. Tie: exhaustive small shapes x stable subsets x mapping orders + random "
+          "chains, exact Fraction arithmetic."),
+    design="DESIGN.md §5 C12",
+    technique="Coq proof (loop invariant over a commutative-monoid valuation, Qc and nat instances) + differential correspondence")
+
 NOT_YET = {
 }
 
